@@ -240,6 +240,42 @@ class Cfg:
                 'contracts': [[c.hex(), k] for c, k in self.contracts], 'now': self.now}
 
 
+# ---------------------------------------------------------------- watchdog (a changed implementation may not terminate)
+import signal
+
+
+class ImplTimeout(BaseException):
+    pass
+
+
+class Watch:
+    """Interrupts the implementation after `seconds`; keeps firing (OP_TRY_EXCEPT catches BaseException)."""
+    fired = False
+
+    def __init__(self, seconds=float(os.environ.get('VERIF_CASE_TIMEOUT', '8'))):
+        self.seconds = seconds
+
+    def __enter__(self):
+        Watch.fired = False
+
+        def handler(sig, frame):
+            Watch.fired = True
+            raise ImplTimeout()
+        try:
+            self.old = signal.signal(signal.SIGALRM, handler)
+            signal.setitimer(signal.ITIMER_REAL, self.seconds, 0.02)
+            self.armed = True
+        except ValueError:          # not in the main thread
+            self.armed = False
+        return self
+
+    def __exit__(self, et, ev, tb):
+        if self.armed:
+            signal.setitimer(signal.ITIMER_REAL, 0, 0)
+            signal.signal(signal.SIGALRM, self.old)
+        return et is ImplTimeout     # swallow our own exception
+
+
 # ---------------------------------------------------------------- implementation runner
 class _Capture:
     depth = 0
@@ -250,6 +286,8 @@ _orig_run_tape = F.run_tape
 
 
 def _run_tape_wrapper(tape, stack, cache, additional_flags={}):
+    if Watch.fired:
+        raise ImplTimeout()        # sticky: once the watchdog fired, every (sub-)tape start aborts at once
     if _Capture.depth == 0:
         _Capture.top = (tape, stack, cache)
     _Capture.depth += 1
@@ -269,14 +307,22 @@ def impl_run_script(script, cache_vals, cfg):
     Pins.now = cfg.now
     _Capture.top = None
     _Capture.depth = 0
-    try:
-        F.run_script(script, cache_vals, cfg.contract_objs(log), cfg.flags, cfg.plugins(log),
-                     cfg.max_items, cfg.max_item_size, cfg.limit)
-        out = 'done'
-    except RecursionError:
+    out = None
+    with Watch():
+        try:
+            F.run_script(script, cache_vals, cfg.contract_objs(log), cfg.flags, cfg.plugins(log),
+                         cfg.max_items, cfg.max_item_size, cfg.limit)
+            out = 'done'
+        except RecursionError:
+            out = 'recursion'
+        except ImplTimeout:
+            raise
+        except BaseException as e:
+            out = 'raised:' + exn_name(e)
+    if Watch.fired or out is None:
+        return 'timeout'
+    if out == 'recursion':
         return 'recursion'
-    except BaseException as e:
-        out = 'raised:' + exn_name(e)
     tape, stack, cache = _Capture.top
     return ' | '.join([out, str(tape.pointer), zhex(tape.callstack_count), stack_str(stack.list()),
                        cache_str(cache), ','.join(log) or '-'])
@@ -288,8 +334,12 @@ def impl_run_auth(scripts, cache_vals, cfg):
     Pins.now = cfg.now
     _Capture.top = None
     _Capture.depth = 0
-    v = F.run_auth_scripts(list(scripts), cache_vals, cfg.contract_objs(log), cfg.plugins(log),
-                           cfg.max_items, cfg.max_item_size, cfg.limit)
+    v = None
+    with Watch():
+        v = F.run_auth_scripts(list(scripts), cache_vals, cfg.contract_objs(log), cfg.plugins(log),
+                               cfg.max_items, cfg.max_item_size, cfg.limit)
+    if Watch.fired or v is None:
+        return 'timeout'
     tape, stack, cache = _Capture.top
     return ' | '.join(['verdict:%d' % (1 if v else 0), '-', '-', stack_str(stack.list()),
                        cache_str(cache), ','.join(log) or '-'])
@@ -437,6 +487,8 @@ def _exn_text_moved(line):
 def compare_script(model, script, cache_vals, cfg, fuel=20000):
     """returns (status, impl_line, model_line); status in agree/differ/skip-*"""
     i = impl_run_script(script, cache_vals, cfg)
+    if i == 'timeout':
+        return 'differ', 'timeout: the implementation did not finish within the per-case watchdog', ''
     if i == 'recursion':
         return 'skip-recursion', i, ''
     m = model.run_script(script, cache_vals, cfg, fuel)
@@ -454,6 +506,8 @@ def compare_auth(model, scripts, cache_vals, cfg, fuel=20000):
         i = impl_run_auth(scripts, cache_vals, cfg)
     except RecursionError:
         return 'skip-recursion', '', ''
+    if i == 'timeout':
+        return 'differ', 'timeout: the implementation did not finish within the per-case watchdog', ''
     m = model.run_auth(scripts, cache_vals, cfg, fuel)
     if m.startswith('unmod:'):
         return 'skip-unmodelled', i, m
